@@ -11,10 +11,11 @@ import (
 // C16: line markers are transparent and name the right source line.
 
 type C16Case struct {
-	File *File    `json:"file"`
-	Gaps []string `json:"gaps"`
-	Path string   `json:"path"`
-	Auto AutoCfg  `json:"auto,omitempty"`
+	File     *File             `json:"file"`
+	Gaps     []string          `json:"gaps"`
+	Path     string            `json:"path"`
+	Auto     AutoCfg           `json:"auto,omitempty"`
+	Switches map[string]string `json:"switches,omitempty"`
 }
 
 func c16Src(c *C16Case) string {
@@ -92,6 +93,10 @@ func uniquify(f *File, auto AutoCfg) {
 			case "dowhile":
 				doBlock(s.Do.Body)
 				doExpr(s.Do.Cond)
+			case "ps":
+				for _, c := range s.PS.Cases {
+					doBlock(c.Body)
+				}
 			case "switch":
 				if s.Switch.Auto != nil {
 					doCmd(s.Switch.Auto)
@@ -229,6 +234,10 @@ func buildSpanIndex(f *File) *spanIndex {
 			case "dowhile":
 				doBlock(s.Do.Body)
 				doExpr(s.Do.Cond)
+			case "ps":
+				for _, c := range s.PS.Cases {
+					doBlock(c.Body)
+				}
 			case "switch":
 				if s.Switch.Auto != nil {
 					doCmd(s.Switch.Auto)
@@ -287,7 +296,7 @@ func checkC16(c *C16Case) *Violation {
 	nLines := CountLines(src)
 	kinds := map[string]bool{}
 	for _, opt := range []bool{true, false} {
-		o := Opts{Optimize: opt, Auto: c.Auto, FontPath: "@repo", Path: c.Path}
+		o := Opts{Optimize: opt, Auto: c.Auto, FontPath: "@repo", Path: c.Path, Switches: c.Switches}
 		plain := Compile(src, o)
 		if plain.Panic != nil || plain.Budget {
 			return viol("crash", "%s\n--- source\n%s", plain.Describe(), src)
@@ -325,7 +334,7 @@ func checkC16(c *C16Case) *Violation {
 			continue
 		}
 		x := buildSpanIndex(c.File)
-		bind, _ := ComputeBinding(c.File, RepoFonts(), "", 0)
+		bind, _ := ComputeBinding(c.File, RepoFonts(), "", 0) // (files with poryswitch: labels of hoisted data are then not attributed, see below)
 		// owner of every hoisted label: the first argument bound to it
 		hoistOwnerCmd := map[string]int{}
 		hoistOwnerLit := map[string]int{}
@@ -510,9 +519,17 @@ func genC16(t *rapid.T) *C16Case {
 	cfg.CF.Auto = c16Auto
 	cfg.CF.AutoP = 4
 	cfg.MaxTops = 5
+	if rapid.IntRange(0, 2).Draw(t, "withps") == 0 {
+		// statement poryswitch: the statements of the selected case keep their own source lines
+		cfg.CF.PS = 6
+		cfg.CF.PSNoDirectContinue = true
+		cfg.CF.PSNestedFallback = true
+		cfg.CF.PSAlwaysFallback = true
+		cfg.CF.InlineText = false // (hoisted labels are numbered by the selected cases only; their attribution needs the binding of the resolved file)
+	}
 	f := GenFile(t, cfg)
 	uniquify(f, c16Auto)
-	c := &C16Case{File: f, Auto: c16Auto}
+	c := &C16Case{File: f, Auto: c16Auto, Switches: map[string]string{"V": rapid.SampledFrom([]string{"A", "B", "zz"}).Draw(t, "v"), "W": rapid.SampledFrom([]string{"A", "1", "q"}).Draw(t, "w")}}
 	c.Path = rapid.SampledFrom([]string{"data/maps/Town/scripts.pory", "scripts.pory", `C:\decomp\data\scripts.pory`, "", "a b/ü.pory"}).Draw(t, "path")
 	c.Gaps = drawGaps(t, len(PrintFile(f).Toks), true)
 	return c
